@@ -135,6 +135,38 @@ fn read_case<const G: usize>(skip: bool, hash: bool, double_end: bool) {
 	forget(res);
 }
 
+/// Native twin of `read_case` (replay target: the hash oracle of the harness is a stub).
+/// Same file from the same solver-chosen bytes, real XXH3, every start byte compared.
+fn read_case_twin<const G: usize>(skip: bool, hash: bool, double_end: bool) {
+	let mut f: [u8; 400] = kani::any();
+	let total = build::<G>(&mut f, !skip, double_end);
+	let m = f[GAP + G + 1];
+	if !(m == 0 || m == 1 || m == 2 || m == 3 || m == 7) {
+		return;
+	}
+	let opts = Opts { skip_frames: skip, compute_hash: hash, debug: None };
+	let g = read(SliceRS { data: &f[..total], pos: 0 }, Some(&opts)).expect("read() failed on a well-formed file");
+	assert!(g.start.bytes.0[..] == f[START + 1..START + 321], "start block differs from the file");
+	let e = g.end.as_ref().expect("no Game End");
+	assert!(e.bytes.0[..] == [m], "Game End block differs from the file");
+	assert!(g.frames.id.len() == 0);
+	assert!(g.quirks.map_or(false, |q| q.double_game_end) == double_end, "doubled Game End not recognised");
+	let want = format!("xxh3:{:016x}", xxhash_rust::xxh3::xxh3_64(&f[..total]));
+	assert!(g.hash == if hash { Some(want) } else { None }, "hash is not XXH3-64 of the whole file");
+}
+
+pub fn c10_read_skip_hash_twin() {
+	read_case_twin::<6>(true, true, false);
+}
+
+pub fn c10_read_skip_nohash_dblend_twin() {
+	read_case_twin::<6>(true, false, true);
+}
+
+pub fn c10_read_full_hash_twin() {
+	read_case_twin::<6>(false, true, false);
+}
+
 // @verif property=C10,C11,C06:thorough tier=quick mem=24 timeout=3000
 // @encodes peppi::io::slippi::read (skip-frames path: jump arithmetic, hashed copy instead of seek), parse_header, parse_start, parse_payloads, game_start, parse_event (Game End), HashingReader, tail handling
 // @symbolic 2700 every non-structural byte of the Game Start block, 6 arbitrary gap bytes, Game End method
@@ -144,6 +176,7 @@ fn read_case<const G: usize>(skip: bool, hash: bool, double_end: bool) {
 // @stub alloc::fmt::format = returns an empty String
 // @stub std::hash::RandomState::new = fixed keys
 // @cbmc --max-field-sensitivity-array-size 1024
+// @replay twin=c10_read_skip_hash_twin
 #[kani::proof]
 #[kani::unwind(12)]
 #[kani::stub(alloc::fmt::format, format_stub)]
@@ -162,6 +195,7 @@ fn c10_read_skip_hash() {
 // @stub alloc::fmt::format = returns an empty String
 // @stub std::hash::RandomState::new = fixed keys
 // @cbmc --max-field-sensitivity-array-size 1024
+// @replay twin=c10_read_skip_nohash_dblend_twin
 #[kani::proof]
 #[kani::unwind(12)]
 #[kani::stub(alloc::fmt::format, format_stub)]
@@ -180,6 +214,7 @@ fn c10_read_skip_nohash_dblend() {
 // @stub alloc::fmt::format = returns an empty String
 // @stub std::hash::RandomState::new = fixed keys
 // @cbmc --max-field-sensitivity-array-size 1024
+// @replay twin=c10_read_full_hash_twin
 #[kani::proof]
 #[kani::unwind(12)]
 #[kani::stub(alloc::fmt::format, format_stub)]
@@ -189,21 +224,7 @@ fn c10_read_full_hash() {
 	read_case::<6>(false, true, false);
 }
 
-// @verif property=C07,C06 tier=quick mem=24 timeout=3000
-// @encodes peppi::io::slippi::read tail handling: a file cut inside the `metadata` key after a complete raw element
-// @symbolic 2700 Game Start block bytes, Game End method, how many bytes of the metadata key survive (0..=9)
-// @bound one port-free 0.1 file without events between Game Start and Game End, followed by a truncated `U\x08metadata{`
-// @assume file skeleton is concrete; see build()
-// @stub xxhash_rust::xxh3::Xxh3::update = recorder
-// @stub alloc::fmt::format = returns an empty String
-// @stub std::hash::RandomState::new = fixed keys
-// @cbmc --max-field-sensitivity-array-size 1024
-#[kani::proof]
-#[kani::unwind(12)]
-#[kani::stub(alloc::fmt::format, format_stub)]
-#[kani::stub(std::hash::RandomState::new, random_state_stub)]
-#[kani::stub(xxhash_rust::xxh3::Xxh3::update, update_check)]
-fn c07_read_cut_in_metadata_key() {
+fn cut_in_metadata_key(keep: usize, skip: bool) {
 	let mut f: [u8; 400] = kani::any();
 	let total = build::<0>(&mut f, true, false);
 	let m = f[GAP + 1];
@@ -216,13 +237,119 @@ fn c07_read_cut_in_metadata_key() {
 		f[at + i] = key[i];
 		i += 1;
 	}
-	let keep: usize = kani::any();
-	kani::assume(keep >= 1 && keep <= 10);
-	let opts = Opts { skip_frames: kani::any(), compute_hash: false, debug: None };
+	let opts = Opts { skip_frames: skip, compute_hash: false, debug: None };
 	let res = read(SliceRS { data: &f[..at + keep], pos: 0 }, Some(&opts));
 	// the raw element is complete, but the file is not: never a game
 	assert!(res.is_err());
-	kani::cover!(keep == 10, "only the opening brace of the metadata map is missing");
-	kani::cover!(keep == 1, "cut right after the U");
+	forget(res);
+}
+
+// @verif property=C07,C06 tier=quick mem=16 timeout=3000
+// @encodes peppi::io::slippi::read tail handling: a file cut inside the `metadata` key after a complete raw element
+// @symbolic 2700 Game Start block bytes, Game End method
+// @bound one port-free 0.1 file without events between Game Start and Game End, followed by a truncated `U\x08metadata{`; cut after 5 and after 10 of its 11 bytes (full read), after 1 byte (skip-frames read)
+// @assume file skeleton is concrete; the cut positions are concrete (a symbolic file length makes every read fallible: 9 GB, > 18 min)
+// @stub xxhash_rust::xxh3::Xxh3::update = recorder
+// @stub alloc::fmt::format = returns an empty String
+// @stub std::hash::RandomState::new = fixed keys
+// @cbmc --max-field-sensitivity-array-size 1024
+#[kani::proof]
+#[kani::unwind(12)]
+#[kani::stub(alloc::fmt::format, format_stub)]
+#[kani::stub(std::hash::RandomState::new, random_state_stub)]
+#[kani::stub(xxhash_rust::xxh3::Xxh3::update, update_check)]
+fn c07_read_cut_in_metadata_key() {
+	cut_in_metadata_key(5, false);
+	cut_in_metadata_key(10, false);
+	cut_in_metadata_key(1, true);
+	kani::cover!(true, "reached");
+}
+
+// @verif property=C10,C11:thorough tier=quick mem=24 timeout=3000
+// @encodes peppi::io::slippi::read skip-frames path on a file that carries a Gecko-code block (message splitter) between Game Start and the skipped region
+// @symbolic 6900 Game Start block bytes, the 512 data bytes and size field of the splitter block, 4 gap bytes, Game End method
+// @bound one port-free 3.3-style table (0x10/0x3D declared) on a 0.1 start block, one final splitter block, 4 skipped bytes, no metadata; hashing off
+// @assume file skeleton is concrete; the Game Start block says version 0.1 (1-byte Game End) while the table declares the splitter events - the reader only consults the table
+// @stub xxhash_rust::xxh3::Xxh3::update = recorder
+// @stub alloc::fmt::format = returns an empty String
+// @stub std::hash::RandomState::new = fixed keys
+// @cbmc --max-field-sensitivity-array-size 1024
+#[kani::proof]
+#[kani::unwind(12)]
+#[kani::stub(alloc::fmt::format, format_stub)]
+#[kani::stub(std::hash::RandomState::new, random_state_stub)]
+#[kani::stub(xxhash_rust::xxh3::Xxh3::update, update_check)]
+fn c10_read_skip_gecko() {
+	const N: usize = 15 + 17 + 321 + 517 + 4 + 2 + 1;
+	let mut f: [u8; N] = kani::any();
+	let mut i = 0;
+	while i < 11 {
+		f[i] = SIG[i];
+		i += 1;
+	}
+	let raw_len = (17 + 321 + 517 + 4 + 2) as u32;
+	let rl = raw_len.to_be_bytes();
+	f[11] = rl[0];
+	f[12] = rl[1];
+	f[13] = rl[2];
+	f[14] = rl[3];
+	// payload table: 5 entries
+	let t = 15;
+	f[t] = 0x35;
+	f[t + 1] = 16;
+	f[t + 2] = 0x36;
+	f[t + 3] = 1;
+	f[t + 4] = 0x40;
+	f[t + 5] = 0x39;
+	f[t + 6] = 0;
+	f[t + 7] = 1;
+	f[t + 8] = 0x10;
+	f[t + 9] = 2;
+	f[t + 10] = 4; // 516
+	f[t + 11] = 0x3D;
+	f[t + 12] = 0;
+	f[t + 13] = 100;
+	f[t + 14] = 0x40;
+	f[t + 15] = 0;
+	f[t + 16] = 1;
+	let st = t + 17;
+	f[st] = 0x36;
+	f[st + 1] = 0;
+	f[st + 2] = 1;
+	f[st + 3] = 0;
+	let mut p = 0;
+	while p < 6 {
+		f[st + 1 + 100 + 36 * p + 1] = 3;
+		p += 1;
+	}
+	let g = st + 321;
+	f[g] = 0x10;
+	let actual = u16::from_be_bytes([f[g + 513], f[g + 514]]);
+	kani::assume(actual <= 512);
+	f[g + 515] = 0x3D;
+	f[g + 516] = 1;
+	let e = g + 517 + 4;
+	f[e] = 0x39;
+	let m = f[e + 1];
+	kani::assume(m == 0 || m == 1 || m == 2 || m == 3 || m == 7);
+	f[e + 2] = 0x7d;
+	let opts = Opts { skip_frames: true, compute_hash: false, debug: None };
+	let res = read(SliceRS { data: &f[..], pos: 0 }, Some(&opts));
+	match &res {
+		Ok(game) => {
+			match &game.end {
+				Some(end) => assert!(end.bytes.0.len() == 1 && end.bytes.0[0] == m),
+				None => assert!(false),
+			}
+			assert!(game.frames.id.len() == 0);
+			assert!(game.start.bytes.0.len() == 320);
+			let i: usize = kani::any();
+			kani::assume(i < 320);
+			assert!(game.start.bytes.0[i] == f[st + 1 + i]);
+			assert!(game.hash.is_none());
+		}
+		Err(_) => assert!(false),
+	}
+	kani::cover!(true, "reached");
 	forget(res);
 }
